@@ -273,6 +273,8 @@ ANCHOR_DOCS = (
     "{k: &x [1, 2], j: *x}",
     "{r: [&x a, &y b, *x]}",
     "{base: &x {a: 1}, d: {<<: *x, b: 2}}",
+    "{r: &y {k: &x {a: 1}}, d: {<<: *x, b: 2}}",            # the merged anchor is defined INSIDE another anchored hash
+    "{r: &y [&x {a: 1}], d: {<<: *x, b: 2}, s: *y}",        # ... inside an anchored list
     "!!set {&x a: null, b: null}",
     "{s: !!set {&x a: null, b: null}}",
 )
